@@ -41,7 +41,8 @@ def frames(natoms, nframes, endian=">", double=False, with_v=True, with_f=False,
         base = np.arange(natoms * 3, dtype=float).reshape(natoms, 3)
         x = (base * 0.25 + k * 0.5) % 64.0 - 8.0
         v = (base * 0.125 - k * 0.25) % 16.0 - 4.0 if with_v else None
-        f = (base * 0.5 + k) % 32.0 if with_f else None
+        # with_f == 'alternate': forces on every second frame only (nstfout = 2 * nstxout): frames differ in size
+        f = (base * 0.5 + k) % 32.0 if (with_f is True or (with_f == "alternate" and k % 2 == 1)) else None
         # triclinic: a non-symmetric matrix, so that a transposed decode is visible
         box = np.array([[4.0 + k, 0.0, 0.0], [0.5, 5.0 + 0.5 * k, 0.0], [-0.25, 1.125, 6.0]])
         b, hl = encode_frame(x, v, f, box, step=k * 10, time=0.5 * k, endian=endian, double=double)
